@@ -8,6 +8,7 @@ import (
 	"golang.org/x/tools/go/ssa"
 
 	"lcv/core"
+	"lcv/eng"
 )
 
 func init() {
@@ -15,7 +16,7 @@ func init() {
 		ID:      "C13",
 		Modules: []string{""},
 		Explanation: "Static rules on the v1 string classifier: (R13.1) regexp.MustCompile* is applied only to compile-time constants anywhere in the root module, so registering a value can never panic in the regexp compiler, and a value that is compiled is first passed through regexp.QuoteMeta; " +
-			"(R13.2) every Match pushed on a result queue has a Confidence that is the constant 1.0 or is dominated by a `> 0` test; (R13.3) the length pre-filter admits a candidate whose ratio equals the threshold (inclusive comparison), so exact copies are not dropped at threshold 1.0; (R13.4) in the exact-occurrence shortcut the token that starts an occurrence can also be recognised as the token that ends it (one-token values). " +
+			"(R13.2) every Match pushed on a result queue has a Confidence that is the constant 1.0 or is dominated by a `> 0` test; (R13.3) the length pre-filter admits a candidate whose ratio equals the threshold (inclusive comparison), so exact copies are not dropped at threshold 1.0; (R13.6) result lists are sorted by a comparator that is a strict order on exact comparisons with Confidence as primary descending key (a tolerance makes equality intransitive); (R13.5) an entry point that normalises its text argument uses the raw text for nothing else; (R13.4) in the exact-occurrence shortcut the token that starts an occurrence can also be recognised as the token that ends it (one-token values). " +
 			"Necessary conditions only: exact Offset/Extent of the occurrence shortcut and the <= 1 bound are numeric behaviour and are not decided.",
 		Run: runC13,
 	})
@@ -99,6 +100,65 @@ func runC13(c *Ctx) {
 
 	// R13.4 the exact-occurrence shortcut tests the start token also as the end token
 	checkOccurrenceShortcut(c, p)
+
+	// R13.6 the order in which duplicates are removed: Matches.Less is decided by exact comparisons, Confidence first
+	{
+		oa := eng.NewOrderAnalysis(p, pkgFuncs(p, scPkg))
+		oa.FindSorts()
+		n6 := 0
+		for _, site := range oa.Sorts {
+			if site.Value == nil || !strings.HasSuffix(core.TypeName(site.Value.Type()), "stringclassifier.Matches") {
+				continue
+			}
+			n6++
+			cmp := site.Cmp
+			ok := cmp != nil && cmp.Undecided == "" && cmp.Bad == 0 && cmp.FirstKey == "Confidence" && cmp.FirstDir == "desc"
+			why := "exact comparisons; a greater Confidence alone decides Less"
+			if !ok {
+				why = "Matches.Less is not a strict order with Confidence as its primary descending key (" + firstKeyDesc(cmp) + ")"
+				if cmp != nil && cmp.Undecided == "" && cmp.Bad > 0 {
+					why = "Matches.Less is not a strict order: " + cmp.FirstBad
+				}
+				why += ": with a tolerance (|a-b| < eps) equality is not transitive, so which of two overlapping matches sorts first - and survives the removal of duplicates - depends on their names instead of their confidence; a verbatim copy at 1.0 can lose to a near miss"
+			}
+			c.R.Check(ok, "R13.6", core.ShortFn(site.Fn)+": the matches are sorted by a strict order with Confidence as primary key", p.Pos(site.Call.Pos()), why, why)
+		}
+		c.R.RequireMin("R13.6", "sorts of stringclassifier.Matches", n6, 1)
+	}
+
+	// R13.5 the raw unknown text is only ever normalised: every comparison, length and diff works on the normalised text
+	norm := p.Func(scPkg, "(*Classifier).normalize")
+	if c.R.Anchor(norm != nil, "stringclassifier.(*Classifier).normalize") {
+		n5 := 0
+		for _, fn := range pkgFuncs(p, scPkg) {
+			if fn.Parent() != nil || fn == norm {
+				continue
+			}
+			for _, call := range core.CallsIn(fn) {
+				if call.Common().StaticCallee() != norm || len(call.Common().Args) < 2 {
+					continue
+				}
+				prm, ok := call.Common().Args[1].(*ssa.Parameter)
+				if !ok {
+					continue // a spilled or computed argument: not this rule's shape
+				}
+				n5++
+				other := ""
+				for _, r := range *prm.Referrers() {
+					if r == ssa.Instruction(call.(ssa.Instruction)) {
+						continue
+					}
+					if _, isDbg := r.(*ssa.DebugRef); isDbg {
+						continue
+					}
+					other = r.String()
+				}
+				c.R.Check(other == "", "R13.5", core.ShortFn(fn)+": the raw text is used only as the argument of normalize", p.Pos(call.Pos()), "every other use works on the normalised text",
+					"the raw (un-normalised) text is also used in `"+other+"`: lengths and comparisons against normalised known values are made on text with different whitespace/punctuation, so an exact copy can be filtered out")
+			}
+		}
+		c.R.RequireMin("R13.5", "entry points that normalise their argument", n5, 2)
+	}
 
 	// R13.3
 	if fn := p.Func(scPkg, "(*matcher).withinConfidenceThreshold"); c.R.Anchor(fn != nil, "stringclassifier.(*matcher).withinConfidenceThreshold") {
